@@ -296,9 +296,16 @@ def vary(mod, cases, tier):
         c = cnt[kind] = cnt.get(kind, 0) + 1
         if c % every:
             continue
-        w = (c // every) % (len(AMPS) + 2 + len(DEGEN))
+        w = (c // every) % (len(AMPS) + 3 + len(DEGEN))
         q = dict(params)
-        if w >= len(AMPS) + 2:
+        if w == len(AMPS) + 2 + len(DEGEN):
+            # the same sample values stored in the non-native byte order (as numpy.fromfile / frombuffer of foreign data give):
+            # exactly the same numbers, a dtype that is neither `float64` nor `complex128` by identity
+            q["x"] = x.astype(x.dtype.newbyteorder("S"))
+            if isinstance(q.get("y"), np.ndarray) and q["y"].dtype in (np.float64, np.complex128):
+                q["y"] = q["y"].astype(q["y"].dtype.newbyteorder("S"))
+            q["variant"] = "byteorder:swapped"
+        elif w >= len(AMPS) + 2:
             # degenerate-but-valid records derived from the case's own samples (same length, same real/complex class);
             # kinds whose other parameters describe the content of x (tone positions, number of exponentials) opt out
             if kind in getattr(mod, "NO_DEGEN", set()):
